@@ -1,3 +1,4 @@
+#![feature(alloc_error_hook)]
 //! nsim — deterministic simulation with fault injection for zaeleus/noodles.
 //!
 //!   nsim check <ID> [--tier quick|thorough] [--seed N] [--workers N] [--limit N] [--no-minimise] [--no-evidence]
@@ -17,6 +18,25 @@ mod seams;
 use std::path::PathBuf;
 
 use kernel::{Check, RunCtx, Stats, Tier, orchestrator, worker};
+
+#[global_allocator]
+static ALLOC: kernel::alloc::Gate = kernel::alloc::Gate;
+
+/// Seam for the one source of randomness inside std that the code under test consumes: the keys
+/// of `std::collections::hash_map::RandomState` (noodles-cram iterates HashMaps while writing, so
+/// the bytes of a CRAM file depend on them). std resolves `getrandom` through a weak symbol
+/// precisely so that it can be interposed "to disable randomness for consistency"; this definition
+/// makes every thread's first RandomState start from the same keys. Together with running each
+/// file generation / writer run on a fresh thread (`kernel::fresh_thread`) the hash iteration
+/// order becomes a pure function of the plan.
+#[unsafe(no_mangle)]
+pub unsafe extern "C" fn getrandom(buf: *mut u8, len: usize, _flags: u32) -> isize {
+    for i in 0..len {
+        // SAFETY: the caller passes a buffer of `len` bytes
+        unsafe { *buf.add(i) = (i as u8).wrapping_mul(31).wrapping_add(7) };
+    }
+    len as isize
+}
 
 fn lookup(id: &str) -> Option<&'static dyn Check> {
     checks::ALL.iter().copied().find(|c| c.id() == id)
@@ -120,6 +140,9 @@ fn real_main(args: &[String]) -> i32 {
                 }
             };
             worker::install_panic_hook();
+            if check.arm_allocator() {
+                kernel::alloc::arm(true);
+            }
             let mut stats = Stats::default();
             let findings = {
                 let mut ctx = RunCtx::new(&mut stats);
